@@ -26,6 +26,26 @@ type verdict struct {
 	alt     addr20
 	altOK   bool
 	legacy  bool
+	// sigClass, when set, names the signature-value rule the transaction breaks
+	// (malleable / malleable-legacy-v / ...): it takes precedence in the
+	// violation key.
+	sigClass string
+}
+
+// judgeSingle is the verdict of a kind authorised by exactly one account
+// signature.
+func (w *world) judgeSingle(wt *wireTx) verdict {
+	sg, _ := getSig(wt, 0)
+	rd := readSig(wt.signedFields(), sg, w.p)
+	switch rd.st {
+	case sigOK:
+		return verdict{ok: true, chargee: rd.signer}
+	case sigWrongChain:
+		return verdict{reason: "wrong-chain", unbound: true, alt: rd.alt, altOK: rd.altOK, legacy: sg.v.Cmp(big.NewInt(28)) <= 0}
+	case sigMalleable:
+		return verdict{reason: rd.reason(), sigClass: rd.reason()}
+	}
+	return verdict{reason: rd.reason()}
 }
 
 func (w *world) judge(wt *wireTx) verdict {
@@ -34,16 +54,7 @@ func (w *world) judge(wt *wireTx) verdict {
 	}
 	switch wt.kind {
 	case kTx, kCreate, kTxt:
-		sg, _ := getSig(wt, 0)
-		signer, st, alt, altOK := indepSender(wt.signedFields(), sg, w.p)
-		switch st {
-		case sigOK:
-			return verdict{ok: true, chargee: signer}
-		case sigWrongChain:
-			return verdict{reason: "wrong-chain", unbound: true, alt: alt, altOK: altOK, legacy: sg.v.Cmp(big.NewInt(28)) <= 0}
-		default:
-			return verdict{reason: st.String()}
-		}
+		return w.judgeSingle(wt)
 	case kCut:
 		return w.judgeCut(wt)
 	case kMst:
@@ -65,35 +76,73 @@ func (w *world) judgeCut(wt *wireTx) verdict {
 	if m == nil {
 		return verdict{reason: "no-signer-list"}
 	}
-	seen := map[addr20]bool{}
-	var power int64
-	fromSigned := false
+	// Three tallies over the signature list, each counting a key once:
+	//   strict  — in-range, non-malleable signatures bound to this chain: the
+	//             only ones that authorise anything;
+	//   unbound — plus low-s signatures for another chain / for no chain;
+	//   mall    — plus malleable (high-s) encodings of any V class.
+	// The verdict comes from the strict tally alone. The other two only say
+	// which rule an acceptance of an unauthorised upgrade must have broken.
+	type tally struct {
+		seen       map[addr20]bool
+		power      int64
+		fromSigned bool
+	}
+	newTally := func() *tally { return &tally{seen: map[addr20]bool{}} }
+	strict, unb, mall := newTally(), newTally(), newTally()
+	count := func(t *tally, a addr20) {
+		if t.seen[a] {
+			return
+		}
+		t.seen[a] = true
+		t.power += m.entries[a]
+		if a == from {
+			t.fromSigned = true
+		}
+	}
+	pass := func(t *tally) bool { return t.fromSigned && t.power >= m.min }
 	var v verdict
+	mallClass := ""
 	for i := 0; i < nSigs(wt); i++ {
 		sg, _ := getSig(wt, i)
-		signer, st, alt, altOK := indepSender(wt.signedFields(), sg, w.p)
-		if st == sigWrongChain && altOK {
-			// remember one chain-unbound signature for the "must not count" rule
-			if alt == from || m.entries[alt] > 0 {
-				v.unbound, v.alt, v.altOK, v.legacy = true, alt, true, sg.v.Cmp(big.NewInt(28)) <= 0
+		rd := readSig(wt.signedFields(), sg, w.p)
+		switch {
+		case rd.st == sigOK:
+			count(strict, rd.signer)
+			count(unb, rd.signer)
+			count(mall, rd.signer)
+		case rd.st == sigWrongChain && rd.altOK:
+			count(unb, rd.alt)
+			count(mall, rd.alt)
+			if rd.alt == from || m.entries[rd.alt] > 0 {
+				v.alt, v.altOK = rd.alt, true
+				if sg.v.Cmp(big.NewInt(28)) <= 0 {
+					v.legacy = true
+				}
 			}
-		}
-		if st != sigOK || seen[signer] {
-			continue // only in-range, non-malleable signatures bound to this chain count, once per key
-		}
-		seen[signer] = true
-		power += m.entries[signer]
-		if signer == from {
-			fromSigned = true
+		case rd.st == sigMalleable && rd.twinOK:
+			count(mall, rd.twin)
+			if rd.twin == from || m.entries[rd.twin] > 0 {
+				mallClass = rd.reason()
+			}
 		}
 	}
 	switch {
-	case !fromSigned:
+	case !strict.fromSigned:
 		v.reason = "sender-did-not-sign"
-	case power < m.min:
+	case strict.power < m.min:
 		v.reason = "insufficient-signer-power"
 	default:
 		return verdict{ok: true, chargee: from}
+	}
+	switch {
+	case pass(unb):
+		v.unbound = true
+	case pass(mall) && mallClass != "":
+		v.sigClass = mallClass
+		v.alt, v.altOK, v.legacy = addr20{}, false, false
+	default:
+		v.alt, v.altOK, v.legacy = addr20{}, false, false
 	}
 	return v
 }
@@ -177,6 +226,8 @@ func (w *world) judgeMst(wt *wireTx) verdict {
 
 func (v verdict) key(kind txKind) (class, key string) {
 	switch {
+	case v.sigClass != "":
+		return "signature-values", fmt.Sprintf("signature-values/%s/%s", v.sigClass, kind)
 	case v.unbound && v.legacy:
 		return "unbound-chain", "unbound-chain/legacy-v-no-chain-parameter"
 	case v.unbound:
